@@ -431,12 +431,37 @@ func (ts *TermStore) bin(op Op, a, b *Term) *Term {
 		if b.IsConst() && b.k == 0 {
 			return a
 		}
+		// (x + c1) + c2 ==> x + (c1+c2)
+		if b.IsConst() && a.op == OAdd && a.a.IsConst() {
+			return ts.bin(OAdd, a.b, ts.BVConst(a.a.k+b.k, int(w)))
+		}
+		if b.IsConst() && a.op == OAdd && a.b.IsConst() {
+			return ts.bin(OAdd, a.a, ts.BVConst(a.b.k+b.k, int(w)))
+		}
+		if a.IsConst() && b.op == OAdd && b.a.IsConst() {
+			return ts.bin(OAdd, b.b, ts.BVConst(b.a.k+a.k, int(w)))
+		}
+		if a.IsConst() && b.op == OAdd && b.b.IsConst() {
+			return ts.bin(OAdd, b.a, ts.BVConst(b.b.k+a.k, int(w)))
+		}
 	case OSub:
 		if b.IsConst() && b.k == 0 {
 			return a
 		}
 		if a == b {
 			return ts.BVConst(0, int(w))
+		}
+		if a.op == OAdd {
+			if a.a == b {
+				return a.b
+			}
+			if a.b == b {
+				return a.a
+			}
+		}
+		if b.IsConst() {
+			// x - c  ==>  x + (-c) so that constants combine
+			return ts.bin(OAdd, a, ts.BVConst(-b.k, int(w)))
 		}
 	case OMul:
 		if a.IsConst() && a.k == 1 {
